@@ -7,7 +7,7 @@ and listed in its evidence."""
 import re
 import z3
 
-from .exec import (Big, Enum, Err, Opaque, Ref, Slice, Struct, Unsupported, INT_TY, POW2,
+from .exec import (DIVIDES, Big, Enum, Err, Opaque, Ref, Slice, Struct, Unsupported, INT_TY, POW2,
                    in_range, int_tdiv, wrap, floor_shr, pow2_lemmas)
 
 F64 = z3.Float64()
@@ -393,6 +393,22 @@ def c_wrapping(op):
 MUL64 = z3.Function('mul64', z3.BitVecSort(64), z3.BitVecSort(64), z3.BitVecSort(64))
 
 
+def c_saturating(op):
+    def f(ex, st, args, path, callee):
+        mm = re.search(r'impl ([iu]\w+)>', callee)
+        w, sg = INT_TY[mm.group(1)]
+        a, b = args
+        lo = -(1 << (w - 1)) if sg else 0
+        hi = (1 << (w - 1)) - 1 if sg else (1 << w) - 1
+        if z3.is_int(a):
+            full = {'add': a + b, 'sub': a - b, 'mul': a * b}[op]
+            if op == 'mul' and not z3.is_int_value(z3.simplify(a)) and not z3.is_int_value(z3.simplify(b)):
+                ex.products.append((a, b))
+            return ret(z3.If(full > hi, z3.IntVal(hi), z3.If(full < lo, z3.IntVal(lo), full)), path)
+        raise Unsupported('saturating op in bit-vector mode')
+    return f
+
+
 def c_overflowing(op):
     def f(ex, st, args, path, callee):
         mm = re.search(r'impl ([iu]\w+)>', callee)
@@ -445,7 +461,11 @@ def c_rotl(ex, st, args, path, callee):
 def c_is_multiple_of(ex, st, args, path, callee):
     a, b = args
     if z3.is_int(a):
-        return ret(z3.If(b == 0, a == 0, a % b == 0), path)
+        # divisibility through a shared uninterpreted predicate (the oracle uses the same one); a sat answer
+        # is re-decided with the definition `divides(b, a) = (a mod b = 0)` instantiated (ex.uf_defs)
+        app = DIVIDES(b, a)
+        ex.uf_defs.append(app == (a % b == 0))
+        return ret(z3.If(b == 0, a == 0, app), path)
     return ret(z3.If(b == 0, a == 0, z3.URem(a, b) == 0), path)
 
 
@@ -501,7 +521,13 @@ def c_int_from(ex, st, args, path, callee):
     return ret(ex.cast(a, frm, to, 'IntToInt'), path)
 
 
+def c_int_default(ex, st, args, path, callee):
+    mm = re.match(r'^<([iu]\w+) as Default>::default$', callee)
+    return ret(ex.mk_int(0, mm.group(1)), path)
+
+
 CORE_INT = [
+    ('core iN::default = 0', r'^<[iu]\w+ as Default>::default$', c_int_default),
     ('core iN::checked_add', r'^core::num::<impl [iu]\w+>::checked_add$', c_checked('add')),
     ('core iN::checked_sub', r'^core::num::<impl [iu]\w+>::checked_sub$', c_checked('sub')),
     ('core iN::checked_mul', r'^core::num::<impl [iu]\w+>::checked_mul$', c_checked('mul')),
@@ -515,6 +541,9 @@ CORE_INT = [
     ('core iN::wrapping_add', r'^core::num::<impl [iu]\w+>::wrapping_add$', c_wrapping('add')),
     ('core iN::wrapping_sub', r'^core::num::<impl [iu]\w+>::wrapping_sub$', c_wrapping('sub')),
     ('core iN::wrapping_neg', r'^core::num::<impl [iu]\w+>::wrapping_neg$', c_wrapping('neg')),
+    ('core iN::saturating_add', r'^core::num::<impl [iu]\w+>::saturating_add$', c_saturating('add')),
+    ('core iN::saturating_sub', r'^core::num::<impl [iu]\w+>::saturating_sub$', c_saturating('sub')),
+    ('core iN::saturating_mul', r'^core::num::<impl [iu]\w+>::saturating_mul$', c_saturating('mul')),
     ('core iN::overflowing_add', r'^core::num::<impl [iu]\w+>::overflowing_add$', c_overflowing('add')),
     ('core iN::overflowing_sub', r'^core::num::<impl [iu]\w+>::overflowing_sub$', c_overflowing('sub')),
     ('core iN::overflowing_mul', r'^core::num::<impl [iu]\w+>::overflowing_mul$', c_overflowing('mul')),
@@ -756,6 +785,12 @@ def c_ordering_is(which):
     return f
 
 
+def c_bool_cmp(ex, st, args, path, callee):
+    a, b = d(ex, args[0]), d(ex, args[1])
+    o = ex.ordering_of(z3.And(z3.Not(a), b), a == b)
+    return ret(SOME(o) if callee.endswith('partial_cmp') else o, path)
+
+
 def c_ident(ex, st, args, path, callee):
     return ret(args[0] if args else Struct([]), path)
 
@@ -815,6 +850,7 @@ CONTROL = [
     ('Result::is_ok', r'^(std::result::)?Result::<.*>::is_ok$', c_is_some(('Ok',))),
     ('Result::is_err', r'^(std::result::)?Result::<.*>::is_err$', c_is_some(('Err',))),
     ('bool::not', r'^<bool as (std::ops::)?Not>::not$', c_not),
+    ('bool Ord::cmp (false < true)', r'^<bool as (std::cmp::)?(Ord|PartialOrd)>::(cmp|partial_cmp)$', c_bool_cmp),
     ('PartialEq::ne = !eq', r' as PartialEq(<.*>)?>::ne$', c_ne_via_eq),
     ('PartialOrd::{lt,le,gt,ge} via partial_cmp', r' as PartialOrd(<.*>)?>::(gt|ge|lt|le)$', c_partial_ord_default),
     ('Ordering::reverse', r'^(std::cmp::)?Ordering::reverse$', c_ordering_reverse),
